@@ -92,6 +92,20 @@ CHECKS = {
         technique="Lean 4 proof over generated model + exhaustive correspondence grid",
         design="6/C19",
     ),
+    "C13": dict(
+        text=("24 theorems over a state-that-survives-exceptions model whose structure (validate-then-write, enter "
+              "inside try, clear+update restore, get_config copies) is EXTRACTED from config.py each run and whose "
+              "validation is the generated auto_check: config_context is transparent for an ARBITRARY body (any "
+              "nesting, raising, failed enter), a raising set_config changes nothing, get_config hands out a copy, "
+              "explicit arguments win, defaults come from the configuration at construction under the option's own "
+              "name (decide over the generated entry table), and - with C19 - no standard option ever leaves its "
+              "domain, by induction over programs. Tie: extraction + correspondence of model and real module on "
+              "random histories (snapshots after every statement); search: the clauses monitored on the real module."),
+        note=NOTE_COMMON + "Model/Config.lean is hand-written (monad, resolve); contextlib semantics assumed; "
+             "single-threaded histories.",
+        technique="Lean 4 proof over model with extracted structure + history correspondence",
+        design="6/C13",
+    ),
 }
 
 PENDING_REASON = "check not implemented yet in this round (see DESIGN.md section 6 for the planned model and theorems)"
